@@ -117,16 +117,16 @@ parity!(c05_permutation_parity_n4, 4, 7);
 parity!(c05_permutation_parity_n5, 5, 8);
 
 harness! {
-    // bound: Tds::permutation_is_odd with different lengths (0..=4 vs 0..=4): None unless equal length
+    // bound: Tds::permutation_is_odd with lists of different (concrete) lengths: None
     #[kani::unwind(7)]
     fn c05_permutation_parity_length_mismatch() {
-        let a: [u8; 4] = [0, 1, 2, 3];
-        let b: [u8; 4] = [3, 2, 1, 0];
-        let n: usize = kani::any();
-        let m: usize = kani::any();
-        kani::assume(n <= 4 && m <= 4 && n != m);
-        assert!(thooks::permutation_is_odd(&a[..n], &b[..m]).is_none());
-        kani::cover!(n == 0, "empty source reached");
+        let a: [u8; 4] = [kani::any(), kani::any(), kani::any(), kani::any()];
+        let b: [u8; 4] = [kani::any(), kani::any(), kani::any(), kani::any()];
+        assert!(thooks::permutation_is_odd(&a[..3], &b[..4]).is_none());
+        assert!(thooks::permutation_is_odd(&a[..4], &b[..3]).is_none());
+        assert!(thooks::permutation_is_odd(&a[..0], &b[..1]).is_none());
+        assert!(thooks::permutation_is_odd(&a[..0], &b[..0]) == Some(false));
+        kani::cover!(a[0] == b[0], "equal leading ids reached");
     }
 }
 
@@ -199,17 +199,27 @@ harness! {
 }
 
 harness! {
-    // bound: facet_key_from_vertices order independence: 3 keys, index < 2^8, version in {1,3}, every permutation
+    // bound: facet_key_from_vertices order independence: 2 keys, index < 2^16, version in {1,3}: swapping the keys gives the same facet key
+    #[kani::unwind(5)]
+    fn c05_facet_key_order_independent_2keys() {
+        let idx: [u32; 2] = kani::any();
+        let v3: [bool; 2] = kani::any();
+        kani::assume(idx[0] < 65536 && idx[1] < 65536);
+        let k = [vkey(if v3[0] { 3 } else { 1 }, idx[0]), vkey(if v3[1] { 3 } else { 1 }, idx[1])];
+        assert!(facet_key_from_vertices(&[k[0], k[1]]) == facet_key_from_vertices(&[k[1], k[0]]), "facet key does not depend on vertex order");
+        assert!(facet_key_from_vertices(&[]) == 0);
+        kani::cover!(k[0].data().as_ffi() > k[1].data().as_ffi(), "unsorted input reached");
+        kani::cover!(k[0].data().as_ffi() < k[1].data().as_ffi(), "sorted input reached");
+    }
+}
+
+harness! {
+    // bound: facet_key_from_vertices order independence: 3 keys, index < 16, version 1, every permutation
     #[kani::unwind(6)]
     fn c05_facet_key_order_independent_3keys() {
         let idx: [u32; 3] = kani::any();
-        let v3: [bool; 3] = kani::any();
-        kani::assume(idx[0] < 256 && idx[1] < 256 && idx[2] < 256);
-        let k = [
-            vkey(if v3[0] { 3 } else { 1 }, idx[0]),
-            vkey(if v3[1] { 3 } else { 1 }, idx[1]),
-            vkey(if v3[2] { 3 } else { 1 }, idx[2]),
-        ];
+        kani::assume(idx[0] < 16 && idx[1] < 16 && idx[2] < 16);
+        let k = [vkey(1, idx[0]), vkey(1, idx[1]), vkey(1, idx[2])];
         let base = facet_key_from_vertices(&[k[0], k[1], k[2]]);
         let p: u8 = kani::any();
         kani::assume(p < 5);
@@ -221,7 +231,6 @@ harness! {
             _ => [k[2], k[1], k[0]],
         };
         assert!(facet_key_from_vertices(&perm) == base, "facet key does not depend on vertex order");
-        assert!(facet_key_from_vertices(&[]) == 0);
         kani::cover!(p == 4 && idx[0] > idx[2], "a reversing permutation of unsorted keys reached");
     }
 }
